@@ -1,11 +1,14 @@
 //! C01 — Enter dispatches exactly the visible line, exactly once.
 
+use std::path::Path;
+
 use serde_json::Value;
-use vmodel::engine::{ShardCtx, Verdict};
+use vmodel::engine::{ShardCtx, Tier, Verdict};
 
 use super::{
+    fuzzdrv,
     lockstep::{replay_lockstep, run_lockstep_shard, Flags, GenOpts},
-    Check, DEFAULT,
+    Check, PrepError, DEFAULT,
 };
 
 // C01 speaks of "the visible line ... after every insertion, deletion, cursor move, recall and completion":
@@ -24,6 +27,7 @@ pub fn check() -> Check {
     Check {
         id: "C01",
         run_shard,
+        prepare: Some(prepare),
         replay: |sub, case| -> Verdict { replay_lockstep(sub, case, FLAGS) },
         floor_quick: 2_000,
         floor_thorough: 50_000,
@@ -41,16 +45,24 @@ pub fn check() -> Check {
     }
 }
 
-fn run_shard(ctx: &ShardCtx) {
-    let opts = GenOpts {
+const SETS: &[&str] = &["raw", "raw", "enum", "group"];
+
+fn opts(tier: Tier) -> GenOpts {
+    GenOpts {
         writes: 2,
         set_prompts: 2,
         scripts: true,
-        max_ops: ctx.tier.pick(40, 120),
+        max_ops: tier.pick(40, 120),
         quotes: true,
-    };
-    run_lockstep_shard(ctx, "dispatch", "C01", ctx.tier.pick(1_500_000, 15_000_000), opts, &["raw", "raw", "enum", "group"], FLAGS);
+    }
 }
 
-#[allow(dead_code)]
-fn _unused(_: &Value) {}
+fn prepare(tier: Tier, seed: u64, _dir: &Path) -> Result<Value, PrepError> {
+    fuzzdrv::prepare_lockstep("C01", "dispatch", "dispatch,editor,screen", opts(tier), SETS, tier, seed)
+}
+
+fn run_shard(ctx: &ShardCtx) {
+    run_lockstep_shard(ctx, "dispatch", "C01", ctx.tier.pick(1_500_000, 15_000_000), opts(ctx.tier), SETS, FLAGS);
+    // what the coverage-guided campaign (prepare) kept, re-run and classified in the plain harness build
+    fuzzdrv::replay_lock_corpus(ctx, "C01", "dispatch", FLAGS);
+}
